@@ -311,7 +311,8 @@ def execute(case):
                            law='trichotomy', kinds=kinds, eq=eqm[i][j], lt=ltm[i][j], gt=ltm[j][i])
       # operators of classes that opt into symbolic comparison
       for x, y, e in ((a, b, eqm[i][j]),):
-        if (isinstance(x, pg.Object) and type(x).use_symbolic_comparison) or isinstance(x, pg.Dict):
+        # pg.Dict / pg.List keep the builtin dict / list equality: they do not opt in.
+        if isinstance(x, pg.Object) and type(x).use_symbolic_comparison:
           if (x == y) != e or (x != y) == e:
             return res.violate('==/!= disagree with pg.eq=%r on %s' % (e, show(i, j)),
                                law='operator-eq', kinds=kinds)
